@@ -1,8 +1,9 @@
 import DaskModel.Lemmas.Repart
 import DaskModel.Lemmas.Truthful
+import DaskModel.Props.C45
 /-! # C44 — repartitioning preserves rows, order and requested layout (theorems) -/
 namespace Dask.C44
-open Dask.Repart
+open Dask.Repart Dask.SDL
 
 /-- **RepartitionToFewer**: for every list of partitions and every raw boundary vector that starts at 0,
     is non-decreasing and ends at or below the number of input partitions (`BoundsOK`; this is what
@@ -141,6 +142,22 @@ def DivisionsFullStatement : Prop :=
 theorem divisions_npartitions (a b : List Nat) (force : Bool) (L : DLayer)
     (h : divisionsLayer a b force = some L) : L.out.length + 1 = b.length :=
   divisionsLayer_count a b force L h
+
+/-- **from_pandas_rows**: `from_pandas(df, npartitions=… | chunksize=…)` on a sorted frame cuts the rows at the
+    planned locations: the partitions concatenate to the frame, in order, one partition per division interval. -/
+theorem from_pandas_rows {α : Type} (rows : List α) (key : α → Nat) (m : Mode) (divs locs : List Nat)
+    (hs : Sorted (rows.map key)) (h : sdl (rows.map key) m = some (divs, locs)) :
+    (cut rows locs).flatten = rows ∧ (cut rows locs).length + 1 = divs.length := by
+  obtain ⟨h0, hlast, hpw⟩ := Dask.C45.sdl_locations_strict hs h
+  have hlen := Dask.C45.sdl_lengths hs h
+  rw [List.length_map] at hlast
+  have hpos : 0 < locs.length := by
+    cases locs with
+    | nil => simp at h0
+    | cons _ _ => simp
+  refine ⟨?_, by rw [cut_eq_chunks, chunks_length]; omega⟩
+  rw [cut_eq_chunks, chunks_flatten rows locs 0 rows.length h0 hlast (hpw.imp (fun h => Nat.le_of_lt h)), pySlice_full]
+
 
 /-! ### non-vacuity -/
 
